@@ -3,7 +3,6 @@ package main
 import (
 	"fmt"
 	"go/types"
-	"sort"
 	"strings"
 
 	"golang.org/x/tools/go/ssa"
@@ -13,7 +12,7 @@ import (
 func (e *Engine) VerifyFunction(fn *ssa.Function, genPanics bool) (u *Unit, err error) {
 	name := fnName(fn)
 	u = &Unit{eng: e, name: name, init0: map[string]Term{}, usedExterns: map[string]bool{}, usedContracts: map[string]bool{}, genPanics: genPanics}
-	u.isInit = fn.Name() == "init" && fn.Signature.Recv() == nil
+	u.isInit = (fn.Name() == "init" || strings.HasPrefix(fn.Name(), "init#")) && fn.Signature.Recv() == nil
 	defer func() {
 		if r := recover(); r != nil {
 			if s, ok := r.(string); ok {
@@ -145,13 +144,15 @@ func (u *Unit) applyKF(env *SEnv, o *Obligation, suffix string) {
 	}
 }
 
-// frameObligations: everything allocated before the call and not named in a
-// modifies clause is unchanged at exit.
-func (u *Unit) frameObligations(fn *ssa.Function, c *Contract, fr *Frame, entry, exit *State) {
+// frameGoals: the conjuncts saying that everything allocated before the call
+// and not named in a modifies clause has, in state `now`, the value it had at
+// entry. Returns nil when the contract promises nothing (modifies anything).
+// One goal per heap component that differs syntactically between the states.
+func (u *Unit) frameGoals(fn *ssa.Function, c *Contract, fr *Frame, entry, now *State) (goals []Term, label string, tags []string, none bool) {
 	name := fnName(fn)
 	alloc0 := u.comp(entry, "alloc")
 	env := u.contractEnv(fn, fr.params, nil, entry, entry)
-	// collect allowed places
+	env.noAssume = true
 	type place struct {
 		addr  Term
 		t     types.Type
@@ -160,14 +161,13 @@ func (u *Unit) frameObligations(fn *ssa.Function, c *Contract, fr *Frame, entry,
 		big   *SVal
 	}
 	var places []place
-	var tags []string
-	label := "frame"
+	label = "frame"
 	for _, cl := range c.Clauses {
 		if cl.Kind != "modifies" {
 			continue
 		}
 		if cl.ModsAny {
-			return // nothing is promised
+			return nil, label, nil, true
 		}
 		if cl.Label != "" && !strings.HasPrefix(cl.Label, "modifies") {
 			label = cl.Label
@@ -226,19 +226,9 @@ func (u *Unit) frameObligations(fn *ssa.Function, c *Contract, fr *Frame, entry,
 			collect(p.addr, p.t)
 		}
 	}
-	// all components touched in exit state
-	names := map[string]bool{}
-	for k := range exit.comps {
-		names[k] = true
-	}
-	var keys []string
-	for k := range names {
-		keys = append(keys, k)
-	}
-	sort.Strings(keys)
-	var goals []Term
+	keys := compKeys(now.comps)
 	for _, k := range keys {
-		before, after := u.comp(entry, k), exit.comps[k]
+		before, after := u.comp(entry, k), now.comps[k]
 		if before.S == after.S {
 			continue
 		}
@@ -257,18 +247,26 @@ func (u *Unit) frameObligations(fn *ssa.Function, c *Contract, fr *Frame, entry,
 				}
 			}
 			cond := And(append([]Term{Lt(App(SInt, "aobj", a), alloc0)}, excl...)...)
-			goals = append(goals, Forall([]Term{a}, Implies(cond, Eq(Select(after, a), Select(before, a)))))
+			goals = append(goals, Forall([]Term{a}, Implies(cond, Eq(Select(after, a), Select(before, a))), []Term{Select(after, a)}))
 		case strings.HasPrefix(k, "E:"):
-			id, i := Term{"fid!", SInt}, Term{"fi!", SInt}
+			id := Term{"fid!", SInt}
 			var excl []Term
+			var elemPlaces []Term
 			for _, p := range places {
 				if p.elems != nil {
-					s := p.elems.T
-					excl = append(excl, Not(And(Eq(id, SArr(s)), Le(SOff(s), i), Lt(i, Add(SOff(s), SLen(s))))))
+					elemPlaces = append(elemPlaces, p.elems.T)
 				}
 			}
+			if len(elemPlaces) == 0 {
+				goals = append(goals, Forall([]Term{id}, Implies(Lt(id, alloc0), Eq(Select(after, id), Select(before, id))), []Term{Select(after, id)}))
+				break
+			}
+			i := Term{"fi!", SInt}
+			for _, s := range elemPlaces {
+				excl = append(excl, Not(And(Eq(id, SArr(s)), Le(SOff(s), i), Lt(i, Add(SOff(s), SLen(s))))))
+			}
 			cond := And(append([]Term{Lt(id, alloc0)}, excl...)...)
-			goals = append(goals, Forall([]Term{id, i}, Implies(cond, Eq(Select(Select(after, id), i), Select(Select(before, id), i)))))
+			goals = append(goals, Forall([]Term{id, i}, Implies(cond, Eq(Select(Select(after, id), i), Select(Select(before, id), i))), []Term{Select(Select(after, id), i)}))
 		case strings.HasPrefix(k, "MD:") || strings.HasPrefix(k, "MV:") || k == "ML":
 			id := Term{"fid!", SInt}
 			var excl []Term
@@ -278,8 +276,18 @@ func (u *Unit) frameObligations(fn *ssa.Function, c *Contract, fr *Frame, entry,
 				}
 			}
 			cond := And(append([]Term{Lt(id, alloc0)}, excl...)...)
-			goals = append(goals, Forall([]Term{id}, Implies(cond, Eq(Select(after, id), Select(before, id)))))
+			goals = append(goals, Forall([]Term{id}, Implies(cond, Eq(Select(after, id), Select(before, id))), []Term{Select(after, id)}))
 		}
+	}
+	return goals, label, tags, false
+}
+
+// frameObligations: the frame holds at a return site.
+func (u *Unit) frameObligations(fn *ssa.Function, c *Contract, fr *Frame, entry, exit *State) {
+	name := fnName(fn)
+	goals, label, tags, none := u.frameGoals(fn, c, fr, entry, exit)
+	if none {
+		return
 	}
 	if len(goals) == 0 {
 		// nothing changed syntactically: still record a (trivial) obligation so the frame is counted
@@ -308,7 +316,18 @@ func (e *Engine) Query(o *Obligation, prelude string) string {
 }
 
 func (e *Engine) globalAxiomsFor(u *Unit, prefix int) string {
-	return e.globalAxioms(u)
+	// facts about the byte tables need the initial byte heap; only usable once it is declared in the prefix
+	declared := false
+	if h0, ok := u.init0[ecomp(SInt)]; ok {
+		needle := "(declare-const " + h0.S + " "
+		for _, c := range u.cmds[:prefix] {
+			if strings.HasPrefix(c, needle) {
+				declared = true
+				break
+			}
+		}
+	}
+	return e.globalAxioms(u, declared)
 }
 
 // FullPrelude = type prelude + spec decls + strings + extra decls + axioms.
@@ -319,6 +338,10 @@ func (e *Engine) FullPrelude() string {
 	sb.WriteString(e.specDecls())
 	sb.WriteString(e.extraDecls())
 	sb.WriteString(e.stringDecls())
+	for _, d := range e.pureDefs {
+		sb.WriteString(d)
+		sb.WriteString("\n")
+	}
 	sb.WriteString(e.axiomText())
 	return sb.String()
 }
